@@ -27,14 +27,14 @@ Proof.
   assert (Hgen : forall rem inc, 1 <= rem <= 9000000000000 -> 0 <= inc <= 1152921504606846976 ->
      let s := wrap64 (Z.quot rem PredictedMoves + Z.quot inc 2) in
      let h := if rem <=? TimeSafetyMargin then rem
-              else clamp (wrap64 (4 * s)) TimeSafetyMargin (wrap64 (rem - TimeSafetyMargin)) in
+              else clamp (wrap64 (HardLimitFactor * s)) TimeSafetyMargin (wrap64 (rem - TimeSafetyMargin)) in
      0 < h <= rem /\ (rem > TimeSafetyMargin -> h <= rem - TimeSafetyMargin) /\
      wrap64 (h * 1000000) = h * 1000000 /\ 0 < wrap64 (h * 1000000)).
   { intros rem inc Hrem Hinc. cbv zeta.
     assert (Hpos : 0 < TimeSafetyMargin /\ 0 < PredictedMoves) by (unfold TimeSafetyMargin, PredictedMoves; lia).
     rewrite (wrap64_small (Z.quot rem PredictedMoves + Z.quot inc 2))
       by (unfold PredictedMoves in *; lia).
-    rewrite (wrap64_small (4 * _)) by (unfold PredictedMoves in *; lia).
+    rewrite (wrap64_small (HardLimitFactor * _)) by (unfold PredictedMoves, HardLimitFactor in *; lia).
     rewrite (wrap64_small (rem - TimeSafetyMargin)) by (unfold TimeSafetyMargin in *; lia).
     unfold clamp.
     destruct (rem <=? TimeSafetyMargin) eqn:E; [apply Z.leb_le in E|apply Z.leb_gt in E].
